@@ -55,7 +55,8 @@ macro_rules | `(tactic| invu_step $hi $h $f) => `(tactic|
 
 theorem invU_step {c : Cfg} (hc : 18446744073709551615 ≤ c.capacity) {s s' : State} {t : Nat} {l : Label}
     (hi : InvU s) (h : step c s t l = some s') : InvU s' := by
-  cases l <;> simp only [step] at h
+  replace h := step_step0 h
+  cases l <;> simp only [step0] at h
   case call op a => invu_step hi h stepCall
   case advance d => simp at h; subst h; exact ⟨hi.nocap, hi.clean⟩
   case read => invu_step hi h stepRead
@@ -74,6 +75,8 @@ theorem invU_step {c : Cfg} (hc : 18446744073709551615 ≤ c.capacity) {s s' : S
   case oiEv => invu_step hi h stepOiEv
   case oiAdd => invu_step hi h stepOiAdd
   case clear => invu_step hi h stepClear
+  case clrAcq i => invu_step hi h stepClrAcq
+  case clrGet i => invu_step hi h stepClrGet
   case mLock => invu_step hi h stepMLock
   case recv => invu_step hi h stepRecv
   case admit d => invu_step hi h stepAdmit
